@@ -26,6 +26,11 @@ class Violation(Exception):
         self.msg = msg
 
 
+class SimCancelled(BaseException):
+    """What user callbacks raise when they imitate asyncio.CancelledError / GeneratorExit: a
+    BaseException that is not an Exception."""
+
+
 class KnownFindingReached(Exception):
     """Raised by the runner's filter when a violation matches a `known` entry."""
 
